@@ -241,20 +241,19 @@ func (s *State) addPC(c *Term) {
 	if c.IsTrue() {
 		return
 	}
-	if f, ok := s.facts[c.ID]; ok && f.IsTrue() {
+	if f, ok := s.factOf(c); ok && f.IsTrue() {
+		s.setFact(c, TTrue)
 		return
 	}
 	if c.Op == "and" {
 		for _, a := range c.Args {
 			s.addPC(a)
 		}
-		s.facts[c.ID] = TTrue
-		s.facts[Not(c).ID] = TFalse
+		s.setFact(c, TTrue)
 		return
 	}
 	s.pc = append(s.pc, c)
-	s.facts[c.ID] = TTrue
-	s.facts[Not(c).ID] = TFalse
+	s.setFact(c, TTrue)
 	if len(s.models) > 0 {
 		var keep []Model
 		for _, m := range s.models {
@@ -764,4 +763,25 @@ func (s *State) addModel(m Model) {
 		return
 	}
 	s.models = append(s.models[:len(s.models):len(s.models)], m)
+}
+
+// setFact records the truth value of boolean term c (and of its negation).
+func (s *State) setFact(c *Term, v *Term) {
+	s.facts[c.ID] = v
+	if c.S.K == KBool {
+		s.facts[Not(c).ID] = Not(v)
+	}
+}
+
+// factOf looks up a known truth value for c (directly or through its negation).
+func (s *State) factOf(c *Term) (*Term, bool) {
+	if f, ok := s.facts[c.ID]; ok {
+		return f, true
+	}
+	if c.Op == "not" {
+		if f, ok := s.facts[c.Args[0].ID]; ok && f.S.K == KBool {
+			return Not(f), true
+		}
+	}
+	return nil, false
 }
